@@ -81,16 +81,16 @@ func CheckDigit(s string) (cd byte, ok bool) {
 type span struct{ line, from, to int }
 
 type layoutDef struct {
-	lines, lineLen int
-	docCode, issuer, name                  span
-	docNum, docCD, nat                     span
-	dob, dobCD, sex, doe, doeCD            span
-	opt                                    span // TD1: optional data of line 1; TD2: optional; TD3: personal number / optional
-	opt2                                   span // TD1 only (line 2)
-	optCD                                  span // TD3 only
-	comp                                   span
-	composite                              []span
-	longDocNumber                          bool // TD1 / TD2: document numbers > 9 characters continue in opt
+	lines, lineLen              int
+	docCode, issuer, name       span
+	docNum, docCD, nat          span
+	dob, dobCD, sex, doe, doeCD span
+	opt                         span // TD1: optional data of line 1; TD2: optional; TD3: personal number / optional
+	opt2                        span // TD1 only (line 2)
+	optCD                       span // TD3 only
+	comp                        span
+	composite                   []span
+	longDocNumber               bool // TD1 / TD2: document numbers > 9 characters continue in opt
 }
 
 var defs = map[Layout]*layoutDef{
